@@ -13,9 +13,13 @@ ID = "C15"
 AREA = "c15"
 LEAN_PROPS = "Litep2pVerif.Props.C15"
 THEOREMS = ["no_self", "no_requery", "terminates", "parallelism_zero_stuck", "parallelism_bound",
-            "success_sorted_bounded", "success_answered", "success_closer_contacted", "terminal_once",
-            "default_parallelism_pos", "lookup_parallelism_bound", "records_once", "quorum_stop",
-            "local_record_double_count", "providers_once"]
+            "success_sorted_bounded", "success_answered", "success_closer_contacted",
+            "success_closer_contacted_needs_injectivity", "terminal_once",
+            "engine_no_self", "engine_no_requery", "engine_parallelism_bound",
+            "default_parallelism_pos", "lookup_parallelism_bound",
+            "value_no_self", "value_no_requery", "value_terminates", "value_done_means",
+            "provider_no_self", "provider_no_requery", "provider_terminates", "provider_all_contacted",
+            "records_once", "quorum_stop", "local_record_double_count", "providers_once"]
 CONSTS = ["KAD_PARALLELISM_FACTOR", "KAD_REPLICATION_FACTOR", "KAD_DEFAULT_PEER_TIMEOUT_SECS"]
 CONST_TABLE = [
     ("KAD_PARALLELISM_FACTOR", "src/protocol/libp2p/kademlia/mod.rs", r"const PARALLELISM_FACTOR: usize = ([^;]+);", 3),
@@ -26,11 +30,21 @@ CONST_TABLE = [
 MANIFEST = {
     "text": "Lean 4 theorems over every event sequence (replies, failures, reply orders, lying peers, clock readings) of an "
             "executable model of FindNodeContext/GetRecordContext/GetProvidersContext/PutToTargetPeersContext/"
-            "FindManyNodesContext and QueryEngine: no_self, no_requery, terminal_once, terminates (+ parallelism_zero_stuck), "
-            "success_sorted_bounded, success_answered, success_closer_contacted, parallelism_bound (full strength after the "
-            "fix: commit), records_once, providers_once, quorum_stop; plus a correspondence run of the real QueryEngine against "
-            "the model on interactively simulated networks (exhaustive reply orders for small networks in thorough) and a "
-            "property-level oracle. A pure state machine: proof over all histories is the right level.",
+            "FindManyNodesContext and QueryEngine. For all three iterative lookups (one generic frontier invariant, "
+            "Proofs/Kad/Lookup.lean): no_self, no_requery (arbitrary clock readings), termination (terminates, "
+            "value_terminates, provider_terminates; + parallelism_zero_stuck), in-flight bound (parallelism_bound, full "
+            "strength after the fix: commit; lookup_parallelism_bound). Per query id at engine level, over every "
+            "interleaving of the events of concurrent queries, restarts under the same id and events for unknown ids: "
+            "terminal_once, engine_no_self, engine_no_requery, engine_parallelism_bound. Success: success_sorted_bounded, "
+            "success_answered, success_closer_contacted (full statement: every peer ever learned of - initial candidates "
+            "and every peer of an accepted reply, except the local node - that is strictly closer than the furthest "
+            "reported one is in pending or queried; needs distances injective on peers, "
+            "success_closer_contacted_needs_injectivity is the counterexample without), value_done_means / "
+            "provider_all_contacted (what the terminal action of a value / provider lookup implies: quorum met or every "
+            "learned peer answered or failed). records_once, providers_once, quorum_stop. Plus a correspondence run of the "
+            "real QueryEngine against the model on interactively simulated networks (exhaustive reply orders for small "
+            "networks in thorough) and a property-level oracle. A pure state machine: proof over all histories is the "
+            "right level.",
     "note": "Trusted: Lean kernel; axioms propext/Classical.choice/Quot.sound; the hand-written model and its tie (differential "
             "runs through adapter src/verif/c15.rs, checker mode for the hash-map iteration order of QueryEngine::next_action); "
             "SHA-256/XOR distances computed outside the model (injectivity on the peers of a case is a hypothesis); "
@@ -52,7 +66,9 @@ TRUSTED_BASE = ["Lean 4.33 kernel", "axioms: propext, Classical.choice, Quot.sou
                 "mutation in between) and given to the model as the nondeterministic choice"]
 ASSUMPTIONS = ["distinct peers have distinct SHA-256 keys (distance to a target is injective on peers)",
                "the initial candidates of a lookup never contain the local peer (they come from the routing table)",
-               "clock readings are monotone", "a provider has fewer than 32 addresses in total",
+               "clock readings are monotone (used by terminates, parallelism_bound, engine_parallelism_bound and success_*; "
+               "not by no_self / no_requery and their value, provider and engine versions)",
+               "a provider has fewer than 32 addresses in total",
                "a step of the adapter takes less than 0.5 s of real time"]
 KEEP_PREFIX = 1
 LOCAL = 0
